@@ -996,8 +996,29 @@ func (h *History) finalProbes(o Options) {
 		}
 		h.probeExpired(last, u)
 	}
-	// never issued names
-	for _, n := range []string{"nonexistent.mp4", "zzz_stream.m3u8", "x_video1_seg99999.mp4", "..", "gap.mp4"} {
+	// never issued names; in the variants without parts also the part names that would belong to the
+	// segments still listed (same prefix, same stream, same number: never advertised by any playlist)
+	never := []string{"nonexistent.mp4", "zzz_stream.m3u8", "x_video1_seg99999.mp4", "..", "gap.mp4"}
+	if h.Case.Cfg.Variant != media.VarLL {
+		derived := 0
+		for i := len(names) - 1; i >= 0 && derived < 6; i-- {
+			u := h.URIs[names[i]]
+			if u.Kind != "seg" || u.ExpiredAt >= 0 {
+				continue
+			}
+			j := strings.LastIndex(names[i], "_seg")
+			k := strings.LastIndexByte(names[i], '.')
+			if j < 0 || k < j {
+				continue
+			}
+			n := names[i][:j] + "_part" + names[i][j+4:k] + ".mp4"
+			if _, listed := h.URIs[n]; !listed {
+				never = append(never, n)
+				derived++
+			}
+		}
+	}
+	for _, n := range never {
 		resp := h.GetNow(h.q(n))
 		if resp != nil && resp.Status == 200 && len(resp.Body) > 0 {
 			h.UnknownProbes = append(h.UnknownProbes, fmt.Sprintf("unknown URI %q returned %d bytes", n, len(resp.Body)))
